@@ -3,14 +3,35 @@ package checks
 import (
 	"fmt"
 
-	"sigs.k8s.io/karpenter/pkg/operator/options"
 	"verif/internal/explore"
+	"verif/world"
 )
 
 func Debug17() {
-	poolCfgs, podShapes, catalogs = c17Pools, c17Shapes, c17Catalogs
-	c := SchedCase{Batch: []int{1, 2}, Catalog: "K3", Pool: 0, Nodes: 0, Pref: options.PreferencePolicyRespect, MinV: options.MinValuesPolicyStrict, Workers: 2, Reserved: true}
-	env := buildSched(c)
-	out := env.runPass(explore.Replay(nil), 2)
-	fmt.Println(out.Err, out.Digest)
+	for _, sc := range termScenarios[:1] {
+		t := buildTerm(sc)
+		t.run(explore.Replay(nil), 30, func(c *world.Call) bool { return true }, c09After)
+		fmt.Println(sc.name, t.history)
+		for _, c := range t.w.Client.Log {
+			fmt.Println("   ", c.String())
+		}
+		fmt.Println(t.w.GetNode("n1") != nil, t.w.GetNodeClaim(t.nc.Name) != nil, t.viol)
+		dbgHook(t)
+	}
+}
+
+func init() {
+	dbgHook = func(t *termRun) {
+		for n := range t.pods {
+			p := t.livePod(n)
+			if p == nil {
+				fmt.Println("pod", n, "gone")
+				continue
+			}
+			fmt.Println("pod", n, p.DeletionTimestamp, p.Status.Phase, p.Spec.NodeName)
+		}
+		for _, e := range t.envEvents() {
+			fmt.Println("env:", e.name)
+		}
+	}
 }
